@@ -256,6 +256,86 @@ func checkC03Generated(x *X, c c03Case) error {
 	return c03Compare(x, "generated spec", orig, tr, transformed, c.Ops)
 }
 
+// ---------- generated multi-file specifications ----------
+
+type c03MultiCase struct {
+	Files map[string]string `json:"files"`
+	Root  string            `json:"root"`
+	Ops   c03Ops            `json:"ops"`
+}
+
+func genC03Multi(t *rapid.T) c03MultiCase {
+	c := genC04(t) // the split specification of C04: 1-4 files, import lines first, re-opened blocks
+	return c03MultiCase{Files: c.Files, Root: c.Root, Ops: c03GenOps(t)}
+}
+
+func c03ParseFiles(files map[string]string, root string) c03Outcome {
+	fs := afero.NewMemMapFs()
+	for n, s := range files {
+		_ = afero.WriteFile(fs, n, []byte(s), 0o644)
+	}
+	return c03Parse(root, fs)
+}
+
+func checkC03Multi(x *X, c c03MultiCase) error {
+	tr := map[string]string{}
+	var total c03Stats
+	var names []string
+	for n := range c.Files {
+		names = append(names, n)
+	}
+	sort.Strings(names)
+	var shown strings.Builder
+	nimports, cmtBetweenImports := 0, false
+	for _, n := range names {
+		text := c.Files[n]
+		out, st := c03Transform(text, c.Ops, c03PlanGenerated(text))
+		tr[n] = out
+		total.LeadChanged += st.LeadChanged
+		total.TabLines += st.TabLines
+		total.UnalignedTabs += st.UnalignedTabs
+		total.BlankIns += st.BlankIns
+		total.WsOnlyIns += st.WsOnlyIns
+		total.CommentIns += st.CommentIns
+		total.Boundaries += st.Boundaries
+		total.Unsafe += st.Unsafe
+		fmt.Fprintf(&shown, "==== file %s\n%s", n, c03Visible(out))
+		// did a comment or blank line land between two import lines?
+		seenImport, gap := false, false
+		for _, l := range strings.Split(out, "\n") {
+			switch {
+			case strings.HasPrefix(l, "import "):
+				nimports++
+				if seenImport && gap {
+					cmtBetweenImports = true
+				}
+				seenImport, gap = true, false
+			case seenImport && strings.HasPrefix(strings.TrimLeft(l, " \t"), "#"):
+				gap = true
+			}
+		}
+	}
+	if len(c.Files) >= 2 {
+		x.Class("multi_files_ge2")
+	}
+	if nimports >= 2 {
+		x.Class("multi_imports_ge2")
+	}
+	if cmtBetweenImports {
+		x.Class("multi_comment_between_import_lines")
+	}
+	if c03Classes(x, "multi", total, c.Ops, 2) && len(c.Files) >= 2 {
+		x.NonTrivial(shown.String())
+	}
+	orig := c03ParseFiles(c.Files, c.Root)
+	trd := c03ParseFiles(tr, c.Root)
+	return c03Compare(x, "generated multi-file spec (root "+c.Root+")", orig, trd, shown.String(), c.Ops)
+}
+
+var c03Multi = Define("C03", "multifile",
+	"the split specifications of C04 (1-4 files of a random import DAG, import lines first, re-opened application blocks) with every file transformed by the same rapid-drawn composition as in 'generated' (so comments and blank lines also land before, between and after import lines); both versions are compiled from an in-memory filesystem and the whole modules compared. Non-trivial: >=2 files and a changed leading run or an inserted line; class multi_comment_between_import_lines counts cases with a comment between two import lines.",
+	genC03Multi, checkC03Multi)
+
 var c03Generated = Define("C03", "generated",
 	"GenIntent specifications (apps, all type kinds, simple/REST/event endpoints, statement trees to depth 4) rendered with a random indent unit (1,2,3,4,6,8 spaces, tab, space+tab), then transformed by a rapid-drawn composition: leading width x1..4; per line 0-3 four-space groups respelled as tabs placed after the unaligned space remainder, before it, or in between; empty / whitespace-only lines at a periodic subset of line boundaries incl. file start and end; whole-line comments (column 0, next line's indentation, odd indentation, bare '#', two in a row) at a periodic subset of all line boundaries except between two '|' doc lines. Oracle: acceptance agrees and proto.Equal after clearing every sysl.SourceContext found by a protoreflect walk. Non-trivial: >=1 leading run changed or >=1 line inserted, and nesting depth >=2; distinct by hash of the transformed text.",
 	genC03Generated, checkC03Generated)
@@ -458,4 +538,6 @@ sweep:
 	}
 	c03Generated.Run(t, scale(80, 900))
 	t.Logf("generated done at %v", time.Since(t0))
+	c03Multi.Run(t, scale(60, 600))
+	t.Logf("multi-file done at %v", time.Since(t0))
 }
